@@ -681,7 +681,18 @@ func (w *weaver) rewriteCall(call *ast.CallExpr, fail func(ast.Node, string, ...
 			return w.rt("OnceDo", recv, call.Args[0], s("once"))
 		}
 	case "sync.Pool":
-		// Get/Put never block and carry no ordering the simulation depends on: left as is
+		// Get/Put never block, but what Get returns depends on per-P caches and the collector:
+		// the simulation keeps one last-in first-out free list per pool instead, so that a run
+		// that hands one object to two owners replays exactly
+		switch m {
+		case "Get":
+			w.count("pool")
+			return w.rt("PoolGet", recv)
+		case "Put":
+			if len(call.Args) == 1 {
+				return w.rt("PoolPut", recv, call.Args[0])
+			}
+		}
 		return nil
 	case "sync.Map":
 		// every operation is a scheduling point (like an atomic); Range iterates in a seeded,
